@@ -136,6 +136,9 @@ def normalise(insns):
     for addr, text in insns:
         text = re.sub(r"\s+", " ", text.strip())
         text = re.sub(r"\s*#.*$", "", text)
+        # a zero displacement is not part of the instruction's meaning: Orc encodes 0(%exec_reg) with an explicit disp8 of 0 (to
+        # keep instruction lengths independent of the offset), the assembler uses the shorter form without displacement
+        text = re.sub(r"(?<![0-9A-Za-z])0x0\((?=%)", "(", text)
         if NOP_RE.match(text) or text == "(bad)" and False:
             continue
         keep.append((addr, text))
